@@ -1,13 +1,15 @@
 //! C08 recorder: compile every annotation-erasure variant of each program.
 //!   c08 record <cases.ndjson> <trace.ndjson> <maxexh>
-//! Case: {id, tops, nsites, nprelude}. Record: {id, nsites, nprelude, results:[{mask:[bool], class, digest}]}.
+//! Case: {id, tops, nsites, nprelude [, files: [{path, tops}]]}. Record: {id, nsites, nprelude, results:[{mask:[bool], class, digest}]}.
+//! `tops` is main.sy; `files` are further files of the project (multi-file families). The sites of a project are
+//! numbered main.sy first, then the files in the order given (the order SyltAnnot!NumSitesP counts them in).
 //! The mask universe mirrors SyltAnnot!Masks; TLC asserts that the record covers it.
 //! C08_STUB=salt: negative control, perturbs the digest of one variant per program.
-//!   c08 probe <file.sy>..                                   compile hand-written programs (analysis aid)
+//!   c08 probe <file.sy | dir>..                             compile hand-written programs / projects (dir/main.sy) (analysis aid)
 //!   c08 print <cases.ndjson> <line> [all|none|0110..]       program text of a case (analysis aid)
 
 use serde_json::{json, Value};
-use std::collections::BTreeSet;
+use std::collections::{BTreeMap, BTreeSet};
 use std::path::Path;
 use vharness::printer::{print_program_sites, Annot, PrintOpts};
 use vharness::util::*;
@@ -37,13 +39,66 @@ fn masks(n: usize, np: usize, maxexh: usize) -> Vec<Vec<bool>> {
     set.into_iter().collect()
 }
 
+/// Render a case with the given mask: (project, number of sites seen by the printer, text for diagnostics).
+fn render(c: &Value, mask: Option<&Vec<bool>>) -> (Project, usize, String) {
+    let mut parts: Vec<(String, &Vec<Value>)> = vec![("main.sy".to_string(), c["tops"].as_array().unwrap())];
+    if let Some(fs) = c.get("files").and_then(|x| x.as_array()) {
+        for f in fs {
+            parts.push((f["path"].as_str().unwrap().to_string(), f["tops"].as_array().unwrap()));
+        }
+    }
+    let mut files = BTreeMap::new();
+    let mut offset = 0usize;
+    let mut text = String::new();
+    for (path, tops) in &parts {
+        // count this file's sites first, then print it with its slice of the mask
+        let (_, n, _, _) = print_program_sites(tops, &PrintOpts::default());
+        let annot = match mask {
+            None => Annot::All,
+            Some(m) => {
+                if n == 0 {
+                    Annot::None
+                } else {
+                    Annot::Mask((0..n).map(|j| *m.get(offset + j).unwrap_or(&true)).collect())
+                }
+            }
+        };
+        let (src, _, _, _) = print_program_sites(tops, &PrintOpts { annot, ..Default::default() });
+        offset += n;
+        if parts.len() > 1 {
+            text.push_str(&format!("// ---- {}\n", path));
+        }
+        text.push_str(&src);
+        files.insert(path.clone(), src);
+    }
+    (Project { files, main: "main.sy".into() }, offset, text)
+}
+
+fn load_dir(root: &Path, dir: &Path, files: &mut BTreeMap<String, String>) {
+    for e in std::fs::read_dir(dir).unwrap() {
+        let p = e.unwrap().path();
+        if p.is_dir() {
+            load_dir(root, &p, files);
+        } else if p.extension().map(|x| x == "sy").unwrap_or(false) {
+            files.insert(p.strip_prefix(root).unwrap().to_string_lossy().to_string(), std::fs::read_to_string(&p).unwrap());
+        }
+    }
+}
+
 fn main() {
     let args: Vec<String> = std::env::args().collect();
     if args.len() >= 3 && args[1] == "probe" {
-        // c08 probe <file.sy>...: compile hand-written programs (analysis aid, not part of the check)
+        // analysis aid, not part of the check
         for f in &args[2..] {
-            let src = std::fs::read_to_string(f).unwrap_or_else(|e| tool_error(&format!("{}: {}", f, e)));
-            match vharness::compile(&Project::single(&src)) {
+            let p = Path::new(f);
+            let project = if p.is_dir() {
+                let mut files = BTreeMap::new();
+                load_dir(p, p, &mut files);
+                Project { files, main: "main.sy".into() }
+            } else {
+                Project::single(&std::fs::read_to_string(f).unwrap_or_else(|e| tool_error(&format!("{}: {}", f, e))))
+            };
+            match vharness::compile(&project) {
                 CompileResult::Ok { lua } => println!("{}: ok {}", f, hex(fnv(&lua))),
                 CompileResult::Err { errors, .. } => println!(
                     "{}: err {}",
@@ -56,17 +111,17 @@ fn main() {
         return;
     }
     if args.len() >= 4 && args[1] == "print" {
-        // c08 print <cases.ndjson> <line (1-based)> [all|none|<mask of 0/1>]: the program text of a case (analysis aid)
+        // analysis aid: c08 print <cases.ndjson> <line (1-based)> [all|none|<mask of 0/1>]
         let cases: Vec<Value> = read_ndjson(Path::new(&args[2]));
         let c = &cases[args[3].parse::<usize>().unwrap() - 1];
-        let annot = match args.get(4).map(|x| x.as_str()) {
-            None | Some("all") => Annot::All,
-            Some("none") => Annot::None,
-            Some(bits) => Annot::Mask(bits.chars().map(|ch| ch == '1').collect()),
+        let n = c["nsites"].as_u64().unwrap_or(64) as usize;
+        let mask: Option<Vec<bool>> = match args.get(4).map(|x| x.as_str()) {
+            None | Some("all") => None,
+            Some("none") => Some(vec![false; n]),
+            Some(bits) => Some(bits.chars().map(|ch| ch == '1').collect()),
         };
-        let opts = PrintOpts { annot, ..Default::default() };
-        let (src, sites, _, _) = print_program_sites(c["tops"].as_array().unwrap(), &opts);
-        println!("// {} sites={}\n{}", c["id"], sites, src);
+        let (_, sites, text) = render(c, mask.as_ref());
+        println!("// {} sites={}\n{}", c["id"], sites, text);
         return;
     }
     if args.len() < 5 || args[1] != "record" {
@@ -76,19 +131,17 @@ fn main() {
     let maxexh: usize = args[4].parse().unwrap();
     let salt = std::env::var("C08_STUB").ok().as_deref() == Some("salt");
     let recs = vharness::pool::par_map(&cases, |_, c| {
-        let tops = c["tops"].as_array().unwrap();
         let n = c["nsites"].as_u64().unwrap() as usize;
         let np = c["nprelude"].as_u64().unwrap() as usize;
         let mut results = Vec::new();
         let all_masks = masks(n, np, maxexh);
         let salted = 3.min(all_masks.len() - 1);
         for (vi, m) in all_masks.into_iter().enumerate() {
-            let opts = PrintOpts { annot: Annot::Mask(m.clone()), ..Default::default() };
-            let (src, sites, _, _) = print_program_sites(tops, &opts);
+            let (project, sites, text) = render(c, Some(&m));
             if sites != n {
                 tool_error(&format!("printer sees {} annotation sites, specification says {}", sites, n));
             }
-            let (class, mut digest, detail) = match vharness::compile(&Project::single(&src)) {
+            let (class, mut digest, detail) = match vharness::compile(&project) {
                 CompileResult::Ok { lua } => ("ok", hex(fnv(&lua)), String::new()),
                 CompileResult::Err { errors, .. } => (
                     "err",
@@ -103,7 +156,7 @@ fn main() {
             let mut r = json!({"mask": m, "class": class, "digest": digest});
             if class != "ok" {
                 r["detail"] = json!(detail);
-                r["source"] = json!(src);
+                r["source"] = json!(text);
             }
             results.push(r);
         }
